@@ -107,4 +107,9 @@ example : decode (Serde.fixed 8) docCfg
     ((encode (Serde.fixed 8) docCfg (.full 8 true 4 8 [13, 15] [1,0,0,0,0,0,0,0] [4,0,0,0,0,0,0,0]
       [[1,0,0,0,0,0,0,0], [4,0,0,0,0,0,0,0], [3,0,0,0,0,0,0,0]])).take 30) = none := by decide
 
+/-- prefix rejection at the constants of the current headers (what `./check c11_quant` compares the real readers with) -/
+theorem prefix_rejected_code (sd : Serde) (hs : sd.Lawful) (s : Image) (hw : WF sd codeCfg s = true)
+    (n : Nat) (hn : n < (encode sd codeCfg s).length) : decode sd codeCfg ((encode sd codeCfg s).take n) = none :=
+  prefix_rejected sd hs codeCfg codeCfg_ok s hw n hn
+
 end DS.Wire.Kll
